@@ -45,7 +45,9 @@ pub fn form_groups(name: &str, same_operand: bool) -> Vec<Vec<u16>> {
         ("u", "toi") => r(2),
         ("i", "tou") => r(2),
         ("u" | "i", "static") => r(3),
-        ("u", "sum") => vec![vec![0, 1], vec![2, 3]],
+        ("u", "sum") => vec![vec![0, 1, 4], vec![2, 3, 5]],
+        ("i" | "f" | "d", "sum") => vec![vec![0, 2, 4], vec![1, 3, 5]],
+        ("r" | "x", "split") => r(3),
         ("iu", "gcd" | "gcdext") => r(5),
         ("iu", _) => r(7),
         ("ui", "rem" | "and") => r(7),
@@ -65,6 +67,7 @@ pub fn form_groups(name: &str, same_operand: bool) -> Vec<Vec<u16>> {
             match op {
                 "add" | "mul" | "and" | "or" | "xor" => vec![mk(&[0, 1, 2, 3, 4, 5, 6, 7, 8, 9, 10, 11])],
                 "sub" | "div" => vec![mk(&[0, 1, 2, 3, 8, 9, 10]), mk(&[4, 5, 6, 7, 11])],
+                "divrem" => vec![mk(&[0, 1, 2, 3, 4, 5, 6, 10])],
                 _ => vec![mk(&[0, 1, 2, 3, 10])],
             }
         }
@@ -76,8 +79,11 @@ pub fn form_groups(name: &str, same_operand: bool) -> Vec<Vec<u16>> {
             }
             g
         }
-        ("f" | "d", "addi" | "muli") => r(9),
-        ("f" | "d", "subi" | "divi") => vec![(0..7).collect(), vec![7, 8]],
+        ("f" | "d", "addi" | "muli" | "addu" | "mulu") => r(12),
+        ("f" | "d", "subi" | "divi") => vec![(0..7).collect(), vec![7, 8, 9, 10, 11]],
+        ("f" | "d", "subu" | "divu") => vec![(0..7).collect(), vec![7, 8, 9, 10, 11]],
+        ("f" | "d", "diveuclid") => r(8),
+        ("f" | "d", "split" | "powf" | "exp" | "ln" | "expm1" | "ln1p") => r(2),
         ("f" | "d", "shl" | "shr") => with_take(r(3)),
         ("f" | "d", "neg") => r(2),
         ("f" | "d", "sqr" | "cubic" | "sqrt" | "powi") => r(2),
@@ -89,6 +95,7 @@ pub fn form_groups(name: &str, same_operand: bool) -> Vec<Vec<u16>> {
         ("r" | "x", "inv" | "neg") => r(2),
         ("r" | "x", "diveuclid") => r(3),
         ("m", "udr" | "idr") => r(8),
+        ("m", "rop" | "reduce") => r(6),
         ("f" | "d" | "r" | "x", "asint") => r(8),
         ("u" | "i" | "f" | "r" | "x", "asf") => vec![vec![0, 1], vec![2, 3]],
         _ => Vec::new(),
@@ -260,7 +267,8 @@ pub fn run_case(case: &Case, stats: &mut Stats, cnt: &mut C15Counters) -> CaseRe
             // primitive type: a design-level disagreement of its own class; it does not stop the run
             if op.name.starts_with("ip.") || op.name.starts_with("up.") {
                 if let Some(val) = outs.iter().find(|o| !o.panicked) {
-                    let vtext = val.text.clone();
+                    // the value that has to fit the primitive output: the (only) result, for div_rem the remainder
+                    let vtext = if op.name.ends_with(".divrem") { val.text.split_whitespace().last().unwrap_or("0").to_string() } else { val.text.clone() };
                     let vform = val.form;
                     let before = outs.len();
                     let mut example = None;
